@@ -658,6 +658,44 @@ def check_estimator(ctx, name, gen_seed, n_batches=2):
                         continue
                     if not same(full, o2, True):
                         report(how, "outputs after %s differ" % how, o2.tolist()[:5], full.tolist()[:5])
+        # tall batches ("all batches"): row counts around the block sizes a vectorised implementation would use;
+        # the batch output must be the concatenation of the outputs of its chunks, and boundary rows alone agree
+        talls = [TALL_ROWS[(gen_seed + i) % len(TALL_ROWS)] for i in range(3 if ctx.thorough else 1)]
+        for m_tall in talls:
+            T = numpy.array([[rng.randint(-2, 12) for _ in range(d)] for _ in range(m_tall)], dtype=float)
+            for meth in meths:
+                f = getattr(model, meth)
+                try:
+                    full = numpy.asarray(f(T))
+                    parts = [numpy.asarray(f(T[i:i + 97])) for i in range(0, m_tall, 97)]
+                    chunked = numpy.concatenate(parts, axis=0)
+                except Exception as e:  # noqa: BLE001
+                    bad.append(("%s.%s:tall-batch-raises" % (cls, meth), "a batch of %d rows raises" % m_tall,
+                                "%s: %s" % (type(e).__name__, str(e)[:120]), "one output row per input row"))
+                    continue
+                if full.shape[0] != m_tall or not same(full, chunked, False):
+                    r = 0
+                    if full.shape == chunked.shape:
+                        neq = [i for i in range(m_tall) if not same(full[i:i + 1], chunked[i:i + 1], False)]
+                        r = neq[0] if neq else 0
+                    bad.append(("%s.%s:tall-batch" % (cls, meth), "output on a batch of %d rows is not the concatenation of "
+                                "the outputs of its chunks (first at row %d)" % (m_tall, r),
+                                full[r:r + 3].tolist() if full.shape[0] > r else list(full.shape), chunked[r:r + 3].tolist()))
+        # a fitted model is not changed by using it: outputs before and after calling EVERY other public method
+        # (score included) on the same batch are identical
+        B = _batch(rng, d)
+        yB = numpy.zeros(B.shape[0], dtype=int)
+        try:
+            first = {meth: numpy.asarray(getattr(model, meth)(B)).copy() for meth in meths}
+            called = _call_everything(model, B, yB, skip=())
+            for meth in meths:
+                again = numpy.asarray(getattr(model, meth)(B))
+                if not same(first[meth], again, True):
+                    bad.append(("%s.%s:changes-after-other-calls" % (cls, meth),
+                                "the output on a batch changes after other public methods (%s) were called on the fitted "
+                                "model" % ", ".join(called)[:120], again.tolist()[:4], first[meth].tolist()[:4]))
+        except Exception:  # noqa: BLE001
+            pass
         info["unseen_rows"] = unseen
         info["methods"] = meths
         # a copy is independent of the original: writing into the original's fitted arrays IN PLACE afterwards
@@ -678,6 +716,34 @@ def check_estimator(ctx, name, gen_seed, n_batches=2):
             except Exception:  # noqa: BLE001  (the scribbled original itself may be unusable; only the copy matters)
                 pass
     return bad, info
+
+
+TALL_ROWS = (1025, 2049, 4097, 1023, 2047, 4095, 8193)
+
+
+def _call_everything(model, B, yB, skip=()):
+    """call every public method mlinsights defines for the class that takes (), (X) or (X, y); exceptions ignored"""
+    import inspect
+    called = []
+    for name in sorted(dir(type(model))):
+        if name.startswith("_") or name.startswith(("fit", "set_", "partial_fit")) or name in skip:
+            continue
+        f = getattr(type(model), name, None)
+        if not inspect.isfunction(f) or not (getattr(f, "__module__", "") or "").startswith("mlinsights"):
+            continue
+        try:
+            req = [p for p in list(inspect.signature(f).parameters.values())[1:]
+                   if p.default is inspect.Parameter.empty and p.kind in (p.POSITIONAL_ONLY, p.POSITIONAL_OR_KEYWORD)]
+        except (TypeError, ValueError):
+            continue
+        if len(req) > 2:
+            continue
+        try:
+            getattr(model, name)(*[B, yB][:len(req)])
+            called.append(name)
+        except Exception:  # noqa: BLE001
+            called.append(name + "(raised)")
+    return called
 
 
 def _scribble(obj, depth=0, seen=None):
